@@ -144,6 +144,8 @@ class Outcome:
         self.reason = reason
         self.exc = exc
         self.how = how
+        self.line_ok = True
+        self.lines: tuple = ()
 
     def same_failure(self, other: 'Outcome') -> bool:
         if self.kind != other.kind:
@@ -192,10 +194,21 @@ def load_configuration(text: str, statement_lines: dict) -> Outcome:
     if not error.strip():
         return Outcome('unlocated', reason='reload() returned %r with an empty error' % (ok,), how='config')
     flat = ' '.join(error.split())
-    quoted = any(' '.join(stmt.split()) in flat for stmt in statement_lines.values() if stmt.strip())
-    named = any(f'line {n}:' in error or f'line {n} ' in error or error.rstrip().endswith(f'line {n}') for n in statement_lines)
-    if quoted or named:
-        return Outcome('refused', reason=flat, how='config-quoted' if quoted else 'config-line')
+    # the statement under test may hold several statements once a stray ; { } got into it: any of them quoted will do
+    quoted_at = []
+    for n, stmt in statement_lines.items():
+        parts = [' '.join(x.split()) for x in re.split(r'[;{}]', stmt)]
+        if any(len(x) >= 3 and x in flat for x in parts):
+            quoted_at.append(n)
+    reported = re.search(r'\bline (\d+)', error)
+    number = int(reported.group(1)) if reported else None
+    if quoted_at:
+        out = Outcome('refused', reason=flat, how='config-quoted')
+        out.line_ok = number in quoted_at
+        out.lines = (number, quoted_at)
+        return out
+    if number in statement_lines:
+        return Outcome('refused', reason=flat, how='config-line')
     return Outcome('unlocated', reason=flat, how='config')
 
 
@@ -416,6 +429,13 @@ def compare_wire(rec: dict, text: str, sess: dict, msgs: list, sig: str) -> None
 # ---------------------------------------------------------------------------- route-text
 
 
+def extensive(route) -> str:
+    try:
+        return route.extensive()[:120]
+    except Exception as exc:  # noqa: BLE001
+        return f'<extensive() raises {exc!r}>'
+
+
 def describe(case: dict) -> str:
     m = case['mutation']
     return f'{case["form"]} form via {case["entry"]}' + (f', {m["kind"]} on {m["field"]} ({m["what"]})' if m else '')
@@ -469,21 +489,41 @@ def _check_route(case: dict) -> dict:
     out = attempt_route(case, cl)
 
     # (a) a route list or a clean refusal
+    note = ''
+    if out.kind == 'unlocated' and 'problem parsing configuration file' in out.reason:
+        # reload() swallowed an exception: the same text offered directly names it (one root cause, one signature)
+        direct = dict(case, entry='parse_route_text' if form == 'route' else 'partial')
+        again = attempt_route(direct, cl)
+        if again.kind == 'exception':
+            note = f'; in a configuration file ({entry}) the operator only reads "{out.reason[:160]}", neither the line nor the statement'
+            case, out = direct, again
     if out.kind == 'exception':
         culprit, minimal, _ = isolate(case, attempt_route, out)
-        raise violation(exception_signature(f'parse:{form}:{culprit}', out.exc), f'{out.exc!r} for "{minimal[:300]}" ({describe(case)}; whole text "{shown}")') from out.exc  # type: ignore[arg-type]
+        raise violation(exception_signature(f'parse:{form}:{culprit}', out.exc), f'{out.exc!r} for "{minimal[:300]}" ({describe(case)}; whole text "{shown}"){note}') from out.exc  # type: ignore[arg-type]
     self_other_afi = case['afi'] == 2 and entry.startswith('config') and any(c[1] == 'next-hop self' for c in cl)
     if out.kind in ('unlocated', 'refused') and self_other_afi and 'next-hop self' in out.reason:
         # documented: next-hop self needs a transport address of the family of the route (the file is for an IPv4 session)
         return {'nontrivial': nontrivial, 'classes': classes + ['self-other-afi-refused']}
+    if out.kind in ('unlocated', 'refused') and 'can only use ip ranges for the peer address' in out.reason:
+        # the interned NetMask defect of C17: an IPv6 /32 route makes the /32 of the neighbor address look like a range
+        if fits is True:
+            raise violation('refused-valid:config:ipv6-mask-equal-to-neighbor-mask', f'"{shown}" in a configuration file is refused with "{out.reason[:200]}" ({describe(case)})')
+        return {'nontrivial': nontrivial, 'classes': classes + ['refused:c17-netmask-interning']}
     if out.kind == 'unlocated':
         culprit, minimal, seen = isolate(case, attempt_route, out)
+        if mutation and mutation['what'] == 'nlri-length-over-255-bits':
+            culprit = 'nlri-length'
         raise violation(f'config:unlocated-error:{form}:{culprit}', f'"{minimal[:300]}" in a configuration file is refused with "{seen.reason[:200]}": neither the line nor the statement ({describe(case)})')
     if out.kind == 'refused':
         if fits is True:
             culprit, minimal, seen = isolate(case, attempt_route, out)
             reason = ' '.join(seen.reason.split())[:200]
+            if form == 'family' and culprit == 'path-information' and case['record'].get('path_id_form') == 'int':
+                # the `<afi> <safi>` form documents path-information as an address; the integer spelling belongs to `route`
+                return {'nontrivial': nontrivial, 'classes': classes + ['refused:family-path-information-as-integer-undocumented']}
             raise violation(f'refused-valid:{form}:{culprit}', f'"{minimal[:300]}" is refused ({reason}) although every value fits the wire format ({describe(case)}; whole text "{shown}")')
+        if not out.line_ok:
+            raise violation('config:wrong-line-number', f'the refusal of "{shown}" names line {out.lines[0]}, the statement is on line {out.lines[1]} of the file: "{out.reason[:200]}" ({describe(case)})')
         return {'nontrivial': nontrivial, 'classes': classes + ['refused' + (f':{out.how}' if out.how else '')]}
 
     # (b) accepted: it can be sent, with the values as written
@@ -497,10 +537,15 @@ def _check_route(case: dict) -> dict:
             wire = next((m for per in results.values() for msgs in per.values() for m in msgs), b'')
             after = f'then sent as {wire[19:].hex()[:160]}' if wire else 'then nothing is sent'
         m = mutation or {'field': '?', 'what': '?', 'kind': '?'}
-        raise violation(f'accepted-unfit:{form}:{m["field"]}:{m["what"]}', f'"{shown}" is accepted ({[r.extensive()[:120] for r in routes[:2]]}), {after} ({describe(case)})')
+        raise violation(f'accepted-unfit:{form}:{m["field"]}:{m["what"]}', f'"{shown}" is accepted ({[extensive(r) for r in routes[:2]]}), {after} ({describe(case)})')
 
     failure, results, more = encode_everywhere(case, routes, text)
     classes += sorted(more)
+    lacking = {'announce requires nexthop': 'next-hop', 'unexpected nlri definition': 'next-hop', 'labeled route announce requires labels': 'label', 'VPN route announce requires RD': 'rd'}
+    lacks = next((kw for start, kw in lacking.items() if failure is not None and isinstance(failure.exc, ValueError) and str(failure.exc).startswith(start)), None)
+    if lacks:
+        # the root cause is the acceptance of a route without next hop / label / rd, however the text came to lack it
+        raise violation(f'accepted-unfit:{form}:{lacks}:dropped-clause', f'"{shown}" is accepted ({[extensive(r) for r in routes[:2]]}), then encoding raises {failure.exc!r} ({describe(case)})')
     if failure is not None:
         if fits is None:
             culprit, minimal = (mutation or {}).get('field', '?'), text
